@@ -80,11 +80,16 @@ package allocation
 //@   ensures forall t :: timerfn(t) == old(timerfn(t))
 //@   assigns timers
 
+//@      // removal counters (ghost): how Close is shown to remove every listed permission / binding exactly once
+//@ ghost var permRemovals int
+//@ ghost var chanRemovals int
 //@ func (*Allocation).RemovePermission
 //@   requires a.fiveTuple != nil
+//@   ensures permRemovals == old(permRemovals) + 1
+//@   ghost-set permRemovals = old(permRemovals) + 1 when true
 //@   ensures [C01,C02,C07:removed] !has(a.permissions, ipKey(addr))
 //@   ensures [C01,C02,C07:frame] forall k :: k != ipKey(addr) ==> haskey(a.permissions, k) == old(haskey(a.permissions, k)) && valat(a.permissions, k) == old(valat(a.permissions, k))
-//@   assigns entries(a.permissions)
+//@   assigns entries(a.permissions), permRemovals
 
 //@ func (*Allocation).AddPermission
 //@   requires allocWF(a) && permTimers(a)
@@ -134,13 +139,15 @@ package allocation
 
 //@ func (*Allocation).RemoveChannelBind
 //@   requires chansWF(a) && a.fiveTuple != nil
+//@   ensures chanRemovals == old(chanRemovals) + 1
+//@   ghost-set chanRemovals = old(chanRemovals) + 1 when true
 //@   ensures [C01,C02,C07,C08:removed] old(chanNumsUnique(a)) ==> forall i :: 0 <= i && i < len(a.channelBindings) ==> a.channelBindings[i].Number != number
 //@   ensures [C01,C02,C08:result] res == old(exists i :: 0 <= i && i < len(a.channelBindings) && a.channelBindings[i].Number == number)
 //@   ensures [C01,C02,C08:len] len(a.channelBindings) == old(len(a.channelBindings)) - (res ? 1 : 0)
 //@   ensures [C01,C02,C08:kept] !res ==> sameSlice(a.channelBindings, old(a.channelBindings))
 //@   ensures base(a.channelBindings) == old(base(a.channelBindings)) || fresh(base(a.channelBindings))
 //@   ensures chansWF(a)
-//@   assigns a.channelBindings, mem(a.channelBindings)
+//@   assigns a.channelBindings, mem(a.channelBindings), chanRemovals
 //@   loop 0 invariant -1 <= i && i < len(a.channelBindings) && sameSlice(a.channelBindings, old(a.channelBindings)) && chansWF(a)
 //@   loop 0 invariant forall j :: i < j && j < len(a.channelBindings) ==> a.channelBindings[j].Number != number
 //@   loop 0 invariant forall j :: 0 <= j && j < len(a.channelBindings) ==> a.channelBindings[j] == old(a.channelBindings[j])
@@ -256,15 +263,17 @@ package allocation
 //@   ensures [C15:no-new-state] forall k :: haskey(a.permissions, k) ==> old(haskey(a.permissions, k))
 //@   ensures [C15:stays-closed] forall ch :: old(closed(ch)) ==> closed(ch)
 //@   ensures base(a.channelBindings) == old(base(a.channelBindings)) || fresh(base(a.channelBindings)) || len(a.channelBindings) == 0
-//@   assigns channels, timers, socketsClosed, entries(a.tcpConnections), entries(a.permissions), a.channelBindings, mem(a.channelBindings)
+//@   assigns channels, timers, socketsClosed, entries(a.tcpConnections), entries(a.permissions), a.channelBindings, mem(a.channelBindings), permRemovals, chanRemovals
 //@   loop 0 invariant closeReady(a) && closed(a.closed) && !armed(a.lifetimeTimer) && socketsClosed >= old(socketsClosed)
 //@   loop 0 invariant forall k :: seenkey(k) ==> !haskey(a.tcpConnections, k)
 //@   loop 1 invariant closeReady(a) && closed(a.closed) && !armed(a.lifetimeTimer) && socketsClosed >= old(socketsClosed) && (forall k :: !haskey(a.tcpConnections, k))
 //@   loop 1 invariant -1 <= rangeindex && rangeindex < len(ranged()) && (forall j :: 0 <= j && j < len(ranged()) ==> ranged()[j] != nil && ranged()[j].lifetimeTimer != nil)
 //@   loop 1 invariant forall k :: haskey(a.permissions, k) ==> old(haskey(a.permissions, k))
+//@   loop 1 invariant [C15:every-listed-permission-removed] permRemovals == old(permRemovals) + rangeindex + 1
 //@   loop 2 invariant a.fiveTuple != nil && a.log != nil && chansWF(a) && closed(a.closed) && !armed(a.lifetimeTimer) && socketsClosed >= old(socketsClosed) && (forall k :: !haskey(a.tcpConnections, k))
 //@   loop 2 invariant -1 <= rangeindex && rangeindex < len(ranged()) && (forall j :: 0 <= j && j < len(ranged()) ==> ranged()[j] != nil && ranged()[j].lifetimeTimer != nil) && (len(ranged()) == 0 || (base(ranged()) != base(a.channelBindings) && base(ranged()) < allocTop))
 //@   loop 2 invariant forall k :: haskey(a.permissions, k) ==> old(haskey(a.permissions, k))
+//@   loop 2 invariant [C15:every-listed-binding-removed] chanRemovals == old(chanRemovals) + rangeindex + 1
 //@   loop 2 invariant base(a.channelBindings) == old(base(a.channelBindings)) || base(a.channelBindings) >= old(allocTop)
 //@ func (*Manager).DeleteAllocation
 //@   requires fiveTuple != nil && m.log != nil
@@ -274,7 +283,7 @@ package allocation
 //@   ensures [C06,C15:closed] old(allocOf(m, fiveTuple.SrcAddr, fiveTuple.DstAddr, int(fiveTuple.Protocol))) != nil ==> closed(old(allocOf(m, fiveTuple.SrcAddr, fiveTuple.DstAddr, int(fiveTuple.Protocol))).closed)
 //@   ensures [C15:event-once] allocDeletedEvents == old(allocDeletedEvents) + ((old(allocOf(m, fiveTuple.SrcAddr, fiveTuple.DstAddr, int(fiveTuple.Protocol))) != nil && m.EventHandler.OnAllocationDeleted != nil) ? 1 : 0)
 //@   ensures [C15:absent-noop] old(allocOf(m, fiveTuple.SrcAddr, fiveTuple.DstAddr, int(fiveTuple.Protocol))) == nil ==> socketsClosed == old(socketsClosed)
-//@   assigns entries(m.allocations), channels, timers, socketsClosed, allocDeletedEvents, entries(allocOf(m, fiveTuple.SrcAddr, fiveTuple.DstAddr, int(fiveTuple.Protocol)).tcpConnections), entries(allocOf(m, fiveTuple.SrcAddr, fiveTuple.DstAddr, int(fiveTuple.Protocol)).permissions), allocOf(m, fiveTuple.SrcAddr, fiveTuple.DstAddr, int(fiveTuple.Protocol)).channelBindings, mem(allocOf(m, fiveTuple.SrcAddr, fiveTuple.DstAddr, int(fiveTuple.Protocol)).channelBindings)
+//@   assigns entries(m.allocations), channels, timers, socketsClosed, allocDeletedEvents, permRemovals, chanRemovals, entries(allocOf(m, fiveTuple.SrcAddr, fiveTuple.DstAddr, int(fiveTuple.Protocol)).tcpConnections), entries(allocOf(m, fiveTuple.SrcAddr, fiveTuple.DstAddr, int(fiveTuple.Protocol)).permissions), allocOf(m, fiveTuple.SrcAddr, fiveTuple.DstAddr, int(fiveTuple.Protocol)).channelBindings, mem(allocOf(m, fiveTuple.SrcAddr, fiveTuple.DstAddr, int(fiveTuple.Protocol)).channelBindings)
 
 //@      // ---- allocation creation (C03, C04, C06, C15, C19)
 //@ spec func mapsSame(m *Manager) bool = forall k :: haskey(m.allocations, k) == old(haskey(m.allocations, k)) && valat(m.allocations, k) == old(valat(m.allocations, k))
